@@ -15,7 +15,7 @@ from ..toycurve import TOY_CURVES, curve_params, toy
 
 P256 = 2 ** 256 - 2 ** 32 - 977
 N256 = 0xFFFFFFFFFFFFFFFFFFFFFFFFFFFFFFFEBAAEDCE6AF48A03BBFD25E8CD0364141
-MC_CURVES = [(11, 0, 7), (19, 2, 9), (7, 0, 3), (31, 0, 3), (13, 0, 7), (43, 0, 7), (67, 0, 7), (5, 0, 7), (11, 1, 6), (17, 0, 7), (23, 0, 7), (79, 0, 7), (127, 0, 7)]      # (223, 0, 7) alone takes TLC more than half an hour
+MC_CURVES = [(11, 0, 7), (19, 2, 9), (7, 0, 3), (31, 0, 3), (13, 0, 7), (43, 0, 7), (67, 0, 7), (5, 0, 2), (11, 1, 6), (17, 0, 7), (23, 0, 7), (79, 0, 7), (127, 0, 7)]      # (223, 0, 7) alone takes TLC more than half an hour
 
 
 def curve_cfg(ctx, p, a, b, extra=""):
